@@ -4,7 +4,7 @@ CLAIMS = {
     "C04": {
         "technique": "rapid-generated check/accept histories against an accepted-set invariant (plain and wrapping detector)",
         "engine": "rapid-models",
-        "text": "Generated-input search: detector kind, window size (aimed at every 64-bit word boundary), maximum (unrelated to the window, tiny to 2^64-1) and a history of up to 200 check/accept calls are drawn by rapid; the invariant 'no successful check of a number whose accept callback ran, none above the maximum, no panic' is evaluated at every step. No counter-example in the cases counted in the evidence; not a proof.",
+        "text": "Generated-input search: detector kind, window size (aimed at every 64-bit word boundary), maximum (unrelated to the window, tiny to 2^64-1) and a history of up to 200 check/accept calls (accept callbacks invoked at once, never, or late, after other numbers were accepted) are drawn by rapid; the invariant 'no successful check of a number whose accept callback ran, none above the maximum, no panic' is evaluated at every step. No counter-example in the cases counted in the evidence; not a proof.",
         "note": "Trusted: the harness's bookkeeping of which accept callbacks it invoked; for the wrapping detector the unwrapped-position model (cycle, seq) that decides when the same number denotes a new packet. The two numbers nearest the half-space boundary are never accepted by the harness.",
         "design_ref": "DESIGN.md §3 C04",
     },
@@ -57,7 +57,7 @@ CLAIMS["C09"] = {
 CLAIMS["C18"] = {
     "technique": "rapid state machines: Bridge vs a model of the scripted impairments (hand-offs counted exactly), dpipe vs FIFO-per-direction model",
     "engine": "rapid-models",
-    "text": "Generated-input search: histories of writes in both directions interleaved with DropNextNWrites, ReorderNextNWrites (repeatedly, n=1..4), Drop, Reorder, Filter, Tick and Process, with truncating and non-truncating readers; the model applies the script to two queues and every hand-over is attributed by queue-length deltas, so the comparison 'reader received exactly the model's sequence' does not depend on timing; combinations the documentation leaves unspecified fall back to the weak oracle (no duplicate, nothing invented, intact). dpipe: FIFO per direction, one message per read, truncation, close of one end. Exploration only.",
+    "text": "Generated-input search: histories of writes in both directions interleaved with DropNextNWrites, ReorderNextNWrites (repeatedly, n=1..4), Drop, Reorder, Filter, Tick and Process, with truncating and non-truncating readers; the model applies the script to two queues and every hand-over is attributed by queue-length deltas, so the comparison 'reader received exactly the model's sequence' does not depend on timing; combinations the documentation leaves unspecified fall back to the weak oracle (no duplicate, nothing invented, intact). dpipe: FIFO per direction, one message per read, truncation, close of one end; a second machine fills a direction to its capacity of 1000 messages, parks further writers inside Write and closes either end: every write that reported success is read by the peer exactly once. Exploration only.",
     "note": "Trusted: the model's order of script application (drop counter, reorder batch, filter) for the unambiguous cases; Bridge.SetLossChance and write deadlines are not exercised.",
     "design_ref": "DESIGN.md §3 C18",
 }
@@ -87,7 +87,7 @@ CLAIMS["C03"] = {
 CLAIMS["C15"] = {
     "technique": "rapid-generated arrival patterns on a virtual clock; all-pairs interval inequality over the forwarding log, head-of-queue identity, discard-only-when-full",
     "engine": "vclock",
-    "text": "vnet/tbf.go is compiled with time.Now/time.Since redirected to a virtual clock that advances only while the filter goroutine is parked in its select, so every forwarding event has an exact timestamp. For generated rates, bursts, queue sizes, 5..300 arrivals with gaps around the old 100 ms refill threshold and run-time Set(TBFRate|TBFMaxBurst), the oracle checks for all pairs i<=j of forwarding events sum(bytes) <= B + R*(t_j-t_i)/8 (B, R = maxima configured during the interval), that each forwarded chunk is the oldest queued object with unchanged contents, and that a discard happens only when queued bytes + length >= queue size. Exploration only.",
+    "text": "vnet/tbf.go is compiled with time.Now/time.Since redirected to a virtual clock that advances only while the filter goroutine is parked in its select, so every forwarding event has an exact timestamp. For generated rates, bursts, queue sizes, 5..300 arrivals with gaps around the old 100 ms refill threshold and run-time Set(TBFRate|TBFMaxBurst) (every 25th, 4th or 2nd arrival; to far-apart values or to the current rate +-1/8 bit/s), the oracle checks for all pairs i<=j of forwarding events sum(bytes) <= B + R*(t_j-t_i)/8 (B, R = maxima configured during the interval), that each forwarded chunk is the oldest queued object with unchanged contents, and that a discard happens only when queued bytes + length >= queue size. Exploration only.",
     "note": "Trusted: goroutine-state barrier (runtime.Stack) that decides when the filter loop is parked; a read-only shim exposes the queue occupancy. Forwarding during Close is not checked.",
     "design_ref": "DESIGN.md §3 C15",
 }
@@ -95,7 +95,7 @@ CLAIMS["C15"] = {
 CLAIMS["C14"] = {
     "technique": "rapid-generated arrival plans against DelayFilter (in-package sink, panic trap) and a MinDelay/MaxJitter router (public API); lower-bound timing, order, exactly-once and liveness oracle",
     "engine": "rapid-models",
-    "text": "Generated-input search on the real clock: delays {0,1us,50us,1ms,5ms,20ms}, 1..4 concurrent senders with bursts and gaps around the delay value through DelayFilter.Run (started by the harness with a recover trap), and MinDelay {0,1ms,10ms} x MaxJitter {0,2ms} routers with 1..3 sending sockets end to end. Oracle: forwarded no sooner than the delay after hand-in (monotonic stamps; noise can only make it more true), each chunk exactly once, unmodified, per-sender order, the loop never panics, everything forwarded within delay + 3 s. A controlled-schedule variant runs Run and the senders as scheduler tasks over the yield-instrumented delay_filter.go/chunk_queue.go (arrival notification vs. timer branch) with the terminal-quiescence rule. Exploration only.",
+    "text": "Generated-input search on the real clock: delays {0,1us,50us,1ms,5ms,20ms}, 1..4 concurrent senders with bursts and gaps around the delay value through DelayFilter.Run (started by the harness with a recover trap), and MinDelay {0,1ms,10ms} x MaxJitter {0,2ms} routers with 1..3 sending sockets end to end, optionally with a slow pass-through chunk filter (forwarding takes 0.6..1.6 x MinDelay) and a tail of datagrams that fall due while the loop is busy, followed by silence. Oracle: forwarded no sooner than the delay after hand-in (monotonic stamps; noise can only make it more true), each chunk exactly once, unmodified, per-sender order, the loop never panics, everything forwarded within delay + 3 s. A controlled-schedule variant runs Run and the senders as scheduler tasks over the yield-instrumented delay_filter.go/chunk_queue.go (arrival notification vs. timer branch) with the terminal-quiescence rule. Exploration only.",
     "note": "Real clock: a tree that is early by less than the timer resolution could be missed; a slow machine cannot cause an alarm (lower bound and a 3 s liveness margin backed by a goroutine dump).",
     "design_ref": "DESIGN.md §3 C14",
 }
@@ -103,8 +103,8 @@ CLAIMS["C14"] = {
 CLAIMS["C13"] = {
     "technique": "rapid-generated attachment sequences (router address assignment) and a rapid state machine over a host's bind table, both through the public API with probe datagrams",
     "engine": "rapid-models",
-    "text": "Generated-input search: (1) sequences of up to 40 (or 250..260) host/child-router attachments with automatic, static-in-subnet, static-in-automatic-range, static-outside-subnet and double static addresses on /24, /16 and /28 routers; after each attachment no automatically assigned address is held by another NIC, every address lies inside the subnet or an error was returned, exhaustion is reported instead of reuse, and a probe datagram to every address reaches its holder. (2) ListenUDP/ListenPacket/DialUDP/Close histories on a host with 1..3 IPs against a bind-table model (wildcard/specific/loopback, port 0 and a pre-filled 5000..5999 range), with probe datagrams that must be received by exactly the covering open socket or by nobody (a marker datagram through the same router queue makes negative answers decidable without sleeping). Exploration only.",
-    "note": "Trusted: the bind-table model; a read-only shim exposes the receive-queue length of a socket so that the harness reads exactly what has arrived. Two identical static addresses are never generated (unconstrained by the statement). Net.Dial is not part of the machine.",
+    "text": "Generated-input search: (1) sequences of up to 40 (or 250..260) host/child-router attachments with automatic, static-in-subnet, static-in-automatic-range (also at its edges .1/.2/.253/.254), static-outside-subnet and double static addresses on /24, /16 and /28 routers; after each attachment no automatically assigned address is held by another NIC, every address lies inside the subnet or an error was returned, exhaustion is reported instead of reuse, and a probe datagram to every address reaches its holder. (2) ListenUDP/ListenPacket/Dial/DialUDP/Close/close-again histories on a host with 1..3 IPs against a bind-table model (wildcard/specific/loopback, port 0 and a pre-filled 5000..5999 range), with probe datagrams that must be received by exactly the covering open socket or by nobody (a marker datagram through the same router queue makes negative answers decidable without sleeping). Exploration only.",
+    "note": "Trusted: the bind-table model; a read-only shim exposes the receive-queue length of a socket so that the harness reads exactly what has arrived. Two identical static addresses are never generated (unconstrained by the statement).",
     "design_ref": "DESIGN.md §3 C13",
 }
 
@@ -119,14 +119,14 @@ CLAIMS["C17"] = {
 CLAIMS["C11"] = {
     "technique": "rapid state machine over a real loopback listener against a remote->connection/backlog model, marker datagrams for negative answers; concurrent bursts with isolation/order/duplicate oracle",
     "engine": "rapid-models",
-    "text": "Generated-input search on real sockets: backlog {1,2,4,128}, accept filter on/off, batch reading off/2/8, 1..6 remotes on the same IP; steps send / accept / read / close / send-again; after every send a marker datagram from an always-accepted remote is read back, which proves (single-threaded FIFO read loop) that the earlier datagram has been dispatched, so 'created nothing' is decided without sleeping. Accept order and RemoteAddr, every Read (byte-identical next datagram of that remote), backlog overflow, filter refusal and reconnect-after-close (fresh object) are compared with the model; finally the backlog must hold nothing the model does not know. A concurrent test checks isolation, per-remote order, no duplicates and unique RemoteAddr under bursts. Exploration only.",
+    "text": "Generated-input search on real sockets: backlog {1,2,4,128}, accept filter on/off, batch reading off/2/8, 1..6 remotes on the same IP; steps send / accept / read / close / send-again / gated bursts (datagrams of several remotes, accepted, refused, overflowing, written while the read loop is held and dispatched from one batch); after every send a marker datagram from an always-accepted remote is read back, which proves (single-threaded FIFO read loop) that the earlier datagram has been dispatched, so 'created nothing' is decided without sleeping. Accept order and RemoteAddr, every Read (byte-identical next datagram of that remote), backlog overflow, filter refusal and reconnect-after-close (fresh object) are compared with the model; finally the backlog must hold nothing the model does not know. A concurrent test checks isolation, per-remote order, no duplicates and unique RemoteAddr under bursts. Exploration only.",
     "note": "Assumes in-order, loss-free loopback delivery at the sequential test's volumes (one datagram in flight at a time); the concurrent test does not assert completeness. Datagrams above the receive MTU are not generated.",
     "design_ref": "DESIGN.md §3 C11",
 }
 CLAIMS["C12"] = {
     "technique": "rapid-drawn schedules over yield-instrumented udp/conn.go with real sockets (controlled scheduler + terminal quiescence rule), then real-I/O liveness probes",
     "engine": "sched",
-    "text": "Setup creates 0..3 accepted and 0..2 un-accepted connections with real datagrams; the controlled phase runs listener.Close, conn.Close (also twice), Accept, Read and late datagrams as tasks in a rapid-drawn schedule over every lock/atomic/channel/WaitGroup operation of udp/conn.go and packetio/buffer.go; the listener's own goroutines run free and the run ends only when two whole-process snapshots show every goroutine parked. Oracle: no Close blocks, Accept fails after Close or its connection counts as accepted, reads of closed connections return; then with real I/O: everything closed => port can be bound again and no goroutine of the package remains; otherwise every accepted unclosed connection still sends and receives ('never earlier') and an open listener still accepts. Exploration of drawn schedules.",
+    "text": "Setup creates 0..3 accepted and 0..2 un-accepted connections with real datagrams; the controlled phase runs listener.Close, conn.Close (also twice), Accept, Read and late datagrams (also with the read loop parked inside a gated AcceptFilter while Close runs) as tasks in a rapid-drawn schedule over every lock/atomic/channel/WaitGroup operation of udp/conn.go and packetio/buffer.go; the listener's own goroutines run free and the run ends only when two whole-process snapshots show every goroutine parked. Oracle: no Close blocks, Accept fails after Close or its connection counts as accepted, reads of closed connections return; then with real I/O: everything closed => port can be bound again and no goroutine of the package remains; otherwise every accepted unclosed connection still sends and receives ('never earlier') and an open listener still accepts. Exploration of drawn schedules.",
     "note": "Trusted: goroutine wait states from runtime.Stack; netpoller wake-ups are not controlled; liveness waits of 3 s. The batch flush ticker goroutine is expected to exit within that margin.",
     "design_ref": "DESIGN.md §2.3, §3 C12",
 }
